@@ -10,16 +10,16 @@ CFG = {
     "trivial_outputs": ["-", "false", "err8", "generr", "hang", "panic", "err"],
     "timeout": {"quick": 900, "thorough": 3600},
     "rule": "one case = one call of the real code on a generated input, answered independently by the Lean model (own Keccak): "
-            "bloom9/calcBloomIndexes of items (0-40 bytes, pool addresses/topics), CreateBloom of receipt sets (0-3 receipts x 0-3 logs x 0-4 topics), "
+            "bloom9/calcBloomIndexes of items (0-40 bytes, pool addresses/topics incl. items whose bloom indexes coincide and items with leading zero bytes), CreateBloom of receipt sets (0-3 receipts x 0-3 logs x 0-4 topics), "
             "BloomLookup incl. near misses (one bit of the item cleared), bloomFilter/filterLogs under criteria (address lists, positional "
             "alternatives, wildcards, up to 5 positions, duplicates), Generator sessions (section sizes 0..4096 incl. non-multiples of 8 and "
             "sizes below 2048, partial fill, overflow, wrong index, Bitset at 0/7/8/2047/2048/size+-1), Matcher sessions over raw blooms with an "
             "in-memory bit-vector server that drops deliveries (filters with nil clauses, empty groups, odd-length clauses; begin>end; section "
             "edges), and filters.Filter.Logs over chains built with core.GenerateChain (+receipts, bloom-bits index committed with the real "
             "Generator and WriteBloomBits) with logs clustered at section/byte edges, index progress 0..all sections, ranges with open ends (-1), "
-            "beyond the head, empty, and straddling the indexed boundary. Each result is also judged in Go against a brute-force scan. "
+            "beyond the head, empty, ending/beginning exactly at section multiples that hold matching logs, and straddling the indexed boundary. Each result is also judged in Go against a brute-force scan. "
             "Non-trivial = the real code returned a non-empty / positive answer (distinct inputs counted).",
-    "tie": {"types.bloom9 (Bloom9)": "corr", "types.LogsBloom/CreateBloom/BytesToBloom": "corr", "types.BloomLookup, Bloom.Test/TestBytes": "corr + direct judgement",
+    "tie": {"types.bloom9 (Bloom9)": "corr", "types.LogsBloom/CreateBloom/BytesToBloom": "corr", "types.BloomLookup, Bloom.TestBytes (both must be positive for every covered item, leading zero bytes included)": "corr + direct judgement",
             "filters.bloomFilter, filters.filterLogs": "corr (overlay accessor) + direct judgement",
             "bloombits.calcBloomIndexes": "corr (overlay accessor); theorem indexes_agree",
             "bloombits.Generator NewGenerator/AddBloom/Bitset": "corr (sessions) + direct transposition judgement; limits regenerated (T-gen bloom)",
@@ -36,7 +36,7 @@ CFG = {
 }
 META = {
     "technique": "Lean 4 proof (no false negatives, transposition, matcher = bloomFilter, Filter.Logs = brute force; unbounded) tied to core/types, core/bloombits and aqua/filters by differential correspondence",
-    "text": "Theorems bloom_no_false_negative, bloomFilter_sound, indexes_agree, transpose_spec, matcher_spec, extraction_spec, matcher_session_spec_partial and "
+    "text": "Theorems bloom_no_false_negative, testBytes_no_false_negative, bloomFilter_sound, indexes_agree, transpose_spec, matcher_spec, extraction_spec, matcher_session_spec_partial and "
             "logs_exact hold in the Lean model for every hash function, log set, criteria, block range (open ends, straddling the indexed boundary), every "
             "section size the generator accepts and every index progress; every run re-proves them, regenerates the bloom constants and generator limits "
             "from the compiled packages, and runs the real CreateBloom/BloomLookup, Generator, Matcher sessions and Filter.Logs against the compiled model "
